@@ -116,6 +116,50 @@ def main():
                     options=opts, detail='round trip: %r -> %r' % (doc, res))
                     [:1500]))
                 return
+    # host sets of either kind (set / frozenset) round-trip as sets: a set
+    # when sets are kept, a list of the same members when they are converted
+    for tl, sl in itertools.product((True, False), repeat=2):
+        eng = yaql.YaqlFactory().create(options={
+            'yaql.convertTuplesToLists': tl, 'yaql.convertSetsToLists': sl})
+        for mk in (lambda: {1, 2, 3}, lambda: frozenset({1, 2, 3}),
+                   lambda: {'x': frozenset({'a'})}, lambda: [frozenset()],
+                   lambda: {'x': {'k': 1}.keys()}):
+            cases += 1
+            doc = mk()
+            res = eng('$').evaluate(data=doc, context=yaql.create_context())
+
+            def canon(v):
+                if isinstance(v, (set, frozenset)) or type(v).__name__ in (
+                        'dict_keys',):
+                    return sorted(canon(t) for t in v) if sl else set(
+                        canon(t) for t in v)
+                if isinstance(v, dict):
+                    return {k: canon(x) for k, x in v.items()}
+                if isinstance(v, list):
+                    return [canon(t) for t in v] if tl else tuple(
+                        canon(t) for t in v)
+                return v
+
+            def same(a, b):
+                if type(a) is not type(b):
+                    return False
+                if isinstance(a, dict):
+                    return a.keys() == b.keys() and all(
+                        same(a[k], b[k]) for k in a)
+                if isinstance(a, (list, tuple)):
+                    return len(a) == len(b) and (
+                        sorted(map(repr, a)) == sorted(map(repr, b)))
+                return a == b
+            want = canon(doc)
+            if not same(res, want):
+                print(json.dumps(dict(
+                    status='failed', cases=cases, expression='$',
+                    options={'yaql.convertTuplesToLists': tl,
+                             'yaql.convertSetsToLists': sl},
+                    document=repr(doc),
+                    detail='round trip of a host set gave %r, expected %r'
+                           % (res, want))))
+                return
     engine = yaql.YaqlFactory().create()
     # falsy documents are documents too
     for doc in (0, '', [], {}, False, 0.0, ()):
